@@ -45,6 +45,14 @@ def cases(tier, seed):
                 for p in range(parts):
                     cs.append(dict(base, m=cl, part=p, of=parts))
         i += 1
+    # the same classes with usage-flag enforcement switched off on the decrypting key (a documented knob that has nothing to do with integrity)
+    j = 0
+    for prod, rc in BASES:
+        if rc == 'pass':
+            continue
+        for cl in ('wrong_secret', 'truncate', 'mdc', 'esk_edit', 'blocks'):
+            cs.append({'prod': prod, 'rc': rc, 'cipher': ciphers[j % len(ciphers)], 'body': ['ascii', 'binary'][j % 2], 'comp': j % 3, 'm': cl, 'part': 0, 'of': 1, 'knob_off': True})
+            j += 1
     return cs
 
 
@@ -93,7 +101,7 @@ def build(d, rng, content_tag=b''):
             return bytes(enc), ('pass', PW), data, sk
         k, m = encwork.recipient(d['rc'])
         enc = k.pubkey.encrypt(msg, sessionkey=sk, cipher=getattr(SymmetricKeyAlgorithm, d['cipher']))
-        return bytes(enc), ('key', k), data, sk
+        return bytes(enc), ('key', _knob(k, d)), data, sk
     lit = encwork.literal_packet(data, b'b', b'', 0)
     plain = lit
     if d['comp']:
@@ -106,7 +114,24 @@ def build(d, rng, content_tag=b''):
         return blob, ('pass', PW), data, sk
     k, m = encwork.recipient(d['rc'])
     blob = encwork.ref_encrypt(plain, cid, sk, [('key', m)], prefix=prefix)
-    return blob, ('key', k), data, sk
+    return blob, ('key', _knob(k, d)), data, sk
+
+
+_KNOB = {}
+
+
+def _knob(k, d):
+    """the decrypting key object; with d['knob_off'] a separate object whose usage-flag enforcement is switched off"""
+    if not d.get('knob_off'):
+        return k
+    import copy
+    if id(k) not in _KNOB:
+        k2 = copy.copy(k)
+        k2._require_usage_flags = False
+        for sk_ in k2.subkeys.values():
+            sk_._require_usage_flags = False
+        _KNOB[id(k)] = (k, k2)
+    return _KNOB[id(k)][1]
 
 
 def _still_has_encrypted_packet(blob):
@@ -342,6 +367,7 @@ def run_case(ctx, d):
                     if other == d['rc']:
                         continue
                     k2, _ = encwork.recipient(other)
+                    k2 = _knob(k2, d)
                     attempt(ctx, pgpy, blob, ('key', k2), [], 'non-recipient-key', d, {'key': other}, 'wrong_secret_attempts')
                     # non-recipient whose key id is written into the PKESK
                     a2, b2, p2 = espans[0]
